@@ -500,3 +500,88 @@ def random_value(rng, cv, around=None):
     if vt == "quat":
         return random_quaternion(rng)
     return [rng.uniform(0, 5) for _ in range(cv["dim"])]
+
+
+# ---------------------------------------------------------------------------------------------
+# name-based protein components (added for C02; deliberately NOT part of COMPONENTS, whose key set
+# other monitors iterate over)
+# ---------------------------------------------------------------------------------------------
+
+def assign_backbone(rng, sysm, nres, segid="PRT", first_resid=None):
+    """label the first 4*nres atoms of the system as N, CA, C, O of residues first..first+nres-1
+    (sets sysm["names"], which scenario_header() turns into `atomname` lines).  Returns
+    (first residue number, {(resid, name): 1-based atom number})."""
+    first = first_resid if first_resid is not None else rng.randint(1, 20)
+    names = []
+    index = {}
+    k = 1
+    for r in range(first, first + nres):
+        for nm in ("N", "CA", "C", "O"):
+            names.append((k, r, nm, segid))
+            index[(r, nm)] = k
+            k += 1
+    if k - 1 > sysm["natoms"]:
+        raise ValueError("system too small for %d residues" % nres)
+    sysm["names"] = names
+    return first, index
+
+
+def c_alpha(rng, sysm, pool, o):
+    """alpha { residueRange, psfSegID, hBondCoeff, ... }; needs sysm labelled by assign_backbone()"""
+    nres = o.get("nres", 6)
+    seg = o.get("segid", "PRT")
+    first, index = assign_backbone(rng, sysm, nres, seg)
+    lines = ["  alpha {", "    residueRange %d-%d" % (first, first + nres - 1), "    psfSegID %s" % seg]
+    v = o.get("variant", "default")
+    if v == "params":
+        lines.append("    hBondCoeff %s" % fnum(round(rng.uniform(0.1, 0.9), 3)))
+        lines.append("    angleRef %s" % fnum(round(rng.uniform(70.0, 110.0), 2)))
+        lines.append("    angleTol %s" % fnum(round(rng.uniform(10.0, 30.0), 2)))
+        lines.append("    hBondCutoff %s" % fnum(round(rng.uniform(2.5, 4.5), 2)))
+        n = rng.choice([4, 6])
+        lines.append("    hBondExpNumer %d" % n)
+        lines.append("    hBondExpDenom %d" % (n + rng.choice([2, 4])))
+    elif v == "angles":
+        lines.append("    hBondCoeff 0.0")
+    elif v == "hbonds":
+        lines.append("    hBondCoeff 1.0")
+    lines.append("  }")
+    atoms = sorted(index.values())
+    for a in atoms:
+        if a in pool:
+            pool.remove(a)
+    return dict(text="\n".join(lines), vtype="scalar", dim=1, tf=False, atoms=atoms, first=first, nres=nres,
+                index=index, segid=seg)
+
+
+def c_dihedralpc(rng, sysm, pool, o):
+    """dihedralPC { residueRange, psfSegID, vectorFile, vectorNumber }: the returned dict carries
+    files={name: content} that must exist in the working directory of the run"""
+    nres = o.get("nres", 5)
+    seg = o.get("segid", "PRT")
+    first, index = assign_backbone(rng, sysm, nres, seg)
+    ncol = rng.randint(1, 3)
+    col = rng.randint(1, ncol)
+    rows = [[round(rng.uniform(-1, 1), 6) for _ in range(ncol)] for _ in range(4 * (nres - 1))]
+    fname = o.get("vector_file", "dpca_vectors.dat")
+    content = "".join(" ".join(fnum(x) for x in row) + "\n" for row in rows)
+    lines = ["  dihedralPC {", "    residueRange %d-%d" % (first, first + nres - 1), "    psfSegID %s" % seg,
+             "    vectorFile %s" % fname, "    vectorNumber %d" % col, "  }"]
+    atoms = sorted(index.values())
+    for a in atoms:
+        if a in pool:
+            pool.remove(a)
+    return dict(text="\n".join(lines), vtype="scalar", dim=1, tf=False, atoms=atoms, first=first, nres=nres,
+                index=index, segid=seg, files={fname: content}, coeffs=[row[col - 1] for row in rows])
+
+
+EXTRA_COMPONENTS = {"alpha": c_alpha, "dihedralPC": c_dihedralpc}
+
+
+def make_extra_colvar(rng, sysm, pool, name, ctype, opts=None, extra_lines=(), coeff=None, exp=None):
+    """like make_colvar() for the components of EXTRA_COMPONENTS"""
+    c = EXTRA_COMPONENTS[ctype](rng, sysm, pool, opts or {})
+    c["ctype"] = ctype
+    return dict(name=name, text=colvar_block(name, [(c, coeff, exp)], extra_lines), comps=[c], vtype=c["vtype"],
+                dim=c["dim"], period=None, tf=False, ctype=ctype, opts=opts or {}, coeff=coeff, exp=exp,
+                files=c.get("files", {}))
